@@ -23,6 +23,7 @@ RULES = {
              "transpose[j][i] = d[i][j] with swapped dimensions",
     "R15.4": "hadamard3d multiplies aligned elements of two 3-D vectors and the scalar",
 }
+RULES["R15.5"] += " | defining-operations: with function-level temporaries expanded, each rank arm of add/sub/mul/div_scalar/hadamard performs exactly the defining IEEE operations (one add / sub / mul / div; two mul for the scaled product), e.g. a / s and not a * (1 / s)"
 ASSUMPTIONS = ["equality of per-element expressions is over the reals (canonical rational form); each expression is a single "
                "IEEE operation chain in source order, so no re-association is hidden by the normal form for these operations",
                "std iterator semantics: zip pairs elements in order and stops at the shorter side; shapes are asserted equal first"]
